@@ -125,6 +125,16 @@ CLAIMED = {
             'pairs of sigma grids over dyadic levels: fractions in [0,1], every source layer partitioned, target '
             'thickness reproduced, column integral conserved, constant field constant.',
             'relative tolerance 1e-12 (float64 laws), 1e-6 through float32 IOAPI data', 'DESIGN.md section 4 C17'),
+    'C19': ('A', 'model_checking',
+            'bounded-exhaustive enumeration of small ICARTT tables/headers written by the real writer, parsed by an independent parser and re-read by the real reader',
+            'Every (1-3 records, 1-3 dependent variables, rotation of a 6-value magnitude alphabet 1e-30..1e30, 4 '
+            'missing codes, 3 mask patterns, 8 header-comment subsets, independent-variable units given/omitted, '
+            'source built by hand with missing_value / with fill value only / read from independently rendered text): '
+            'the written text is parsed by an independent FFI-1001 parser (declared header-line and variable counts '
+            '== actual), re-read by ffi1001 and by auto-detection (names/order, units, missing codes, masks, values '
+            'to 7 significant digits) and a second write/read cycle must change no data.',
+            'independent parser written from the header grammar; normal-comment count line not judged',
+            'DESIGN.md section 4 C19'),
 }
 
 PENDING_REASON = ('check not built yet in this session; planned per DESIGN.md section 4 '
